@@ -8,41 +8,47 @@ import Rscp.Gen.Leaves
 namespace Rscp.Tie.Vocab
 
 /-- source of `rscp_Tag_String` is unchanged -/
-theorem shape_rscp_Tag_String : Rscp.Gen.Shape.rscp_Tag_String = "e98fbc5904a919a40ab77358b57c1aa4" := rfl
+theorem shape_rscp_Tag_String : Rscp.Gen.Shape.rscp_Tag_String = "4c66401edf66dffe42f8fb48b57d79d9" := rfl
 /-- source of `rscp_TagString` is unchanged -/
-theorem shape_rscp_TagString : Rscp.Gen.Shape.rscp_TagString = "adcb1c86f835c439cda70becc8d8525f" := rfl
+theorem shape_rscp_TagString : Rscp.Gen.Shape.rscp_TagString = "a3e638a15ee36a324ff76b6faf65a512" := rfl
 /-- source of `rscp_TagValues` is unchanged -/
 theorem shape_rscp_TagValues : Rscp.Gen.Shape.rscp_TagValues = "6f394383159a8710da0f03ee41fb0a18" := rfl
 /-- source of `rscp_Tag_IsATag` is unchanged -/
-theorem shape_rscp_Tag_IsATag : Rscp.Gen.Shape.rscp_Tag_IsATag = "866f24d5200dd0830515e578620d53f7" := rfl
+theorem shape_rscp_Tag_IsATag : Rscp.Gen.Shape.rscp_Tag_IsATag = "9eecee4cca9ffce2118305907622f362" := rfl
 /-- source of `rscp_Tag_DataType` is unchanged -/
-theorem shape_rscp_Tag_DataType : Rscp.Gen.Shape.rscp_Tag_DataType = "e9dd0f02a82651b50e077d35aafbaba0" := rfl
+theorem shape_rscp_Tag_DataType : Rscp.Gen.Shape.rscp_Tag_DataType = "7f89d9391dd38f68a30d9a2d55766b01" := rfl
 /-- source of `rscp_Tag_MarshalJSON` is unchanged -/
-theorem shape_rscp_Tag_MarshalJSON : Rscp.Gen.Shape.rscp_Tag_MarshalJSON = "93c6c583baf3a627191b6aad23870223" := rfl
+theorem shape_rscp_Tag_MarshalJSON : Rscp.Gen.Shape.rscp_Tag_MarshalJSON = "0489f29658b023dafa3829e6877f0a11" := rfl
 /-- source of `rscp_Tag_UnmarshalJSON` is unchanged -/
-theorem shape_rscp_Tag_UnmarshalJSON : Rscp.Gen.Shape.rscp_Tag_UnmarshalJSON = "01ec57412b2cacd5e5edcdf2cec6d836" := rfl
+theorem shape_rscp_Tag_UnmarshalJSON : Rscp.Gen.Shape.rscp_Tag_UnmarshalJSON = "7440c5022249bfc1511cd14aa2fc30f8" := rfl
 /-- source of `rscp_Tag_isRequest` is unchanged -/
-theorem shape_rscp_Tag_isRequest : Rscp.Gen.Shape.rscp_Tag_isRequest = "8ae75144e9c1c8a6fbc4b71d4091e1c5" := rfl
+theorem shape_rscp_Tag_isRequest : Rscp.Gen.Shape.rscp_Tag_isRequest = "16789c2226ddf747e88c908bc1454da6" := rfl
 /-- source of `rscp_Tag_isResponse` is unchanged -/
-theorem shape_rscp_Tag_isResponse : Rscp.Gen.Shape.rscp_Tag_isResponse = "f5577bf14718d059412c74bd8fc34768" := rfl
+theorem shape_rscp_Tag_isResponse : Rscp.Gen.Shape.rscp_Tag_isResponse = "df15c5d44655ff0331fffa2855604198" := rfl
 /-- source of `rscp_DataType_String` is unchanged -/
-theorem shape_rscp_DataType_String : Rscp.Gen.Shape.rscp_DataType_String = "a157112dd4e8e94e1879f539df7f103d" := rfl
+theorem shape_rscp_DataType_String : Rscp.Gen.Shape.rscp_DataType_String = "baafec6edc54d213880a5072d48e1952" := rfl
 /-- source of `rscp_DataTypeString` is unchanged -/
-theorem shape_rscp_DataTypeString : Rscp.Gen.Shape.rscp_DataTypeString = "1667a1e9ebfdb7ca683eadd755730cc3" := rfl
+theorem shape_rscp_DataTypeString : Rscp.Gen.Shape.rscp_DataTypeString = "b6f64574292aef24c9b10c27917f4012" := rfl
 /-- source of `rscp_DataType_IsADataType` is unchanged -/
-theorem shape_rscp_DataType_IsADataType : Rscp.Gen.Shape.rscp_DataType_IsADataType = "9027af7f816cb7df6542e7423ddd0962" := rfl
+theorem shape_rscp_DataType_IsADataType : Rscp.Gen.Shape.rscp_DataType_IsADataType = "0a309425ac445f3485bff5f6343eadf9" := rfl
 /-- source of `rscp_DataType_MarshalJSON` is unchanged -/
-theorem shape_rscp_DataType_MarshalJSON : Rscp.Gen.Shape.rscp_DataType_MarshalJSON = "caf4c4d08414da1212caec7aeaf621d6" := rfl
+theorem shape_rscp_DataType_MarshalJSON : Rscp.Gen.Shape.rscp_DataType_MarshalJSON = "90162ebd7939b429956331026ec913df" := rfl
 /-- source of `rscp_DataType_UnmarshalJSON` is unchanged -/
-theorem shape_rscp_DataType_UnmarshalJSON : Rscp.Gen.Shape.rscp_DataType_UnmarshalJSON = "3aa85fd6a1677ef70d5b30598c1c15a5" := rfl
+theorem shape_rscp_DataType_UnmarshalJSON : Rscp.Gen.Shape.rscp_DataType_UnmarshalJSON = "f90a6f5ae6516957b621ca70397364ee" := rfl
 /-- source of `rscp_DataType_length` is unchanged -/
-theorem shape_rscp_DataType_length : Rscp.Gen.Shape.rscp_DataType_length = "255ffd13f6a735b6a90e61662336bcc6" := rfl
+theorem shape_rscp_DataType_length : Rscp.Gen.Shape.rscp_DataType_length = "e95e4ea52c548bbb6c125bd79826b973" := rfl
 /-- source of `rscp_DataType_newEmpty` is unchanged -/
-theorem shape_rscp_DataType_newEmpty : Rscp.Gen.Shape.rscp_DataType_newEmpty = "8ac13e848385a7d997cf4c18bbfb95ec" := rfl
+theorem shape_rscp_DataType_newEmpty : Rscp.Gen.Shape.rscp_DataType_newEmpty = "3c2f91aa8df3ed22a4afe344207e46af" := rfl
 /-- source of `rscp_DataType_new` is unchanged -/
-theorem shape_rscp_DataType_new : Rscp.Gen.Shape.rscp_DataType_new = "8d807aa65c3f75dab708caaead55aff3" := rfl
+theorem shape_rscp_DataType_new : Rscp.Gen.Shape.rscp_DataType_new = "eb2df129ec7f54798a108eba99caf8eb" := rfl
 /-- source of `rscp_DataType_isValidValue` is unchanged -/
-theorem shape_rscp_DataType_isValidValue : Rscp.Gen.Shape.rscp_DataType_isValidValue = "ab535fee51bad3079543523fd1f569e1" := rfl
+theorem shape_rscp_DataType_isValidValue : Rscp.Gen.Shape.rscp_DataType_isValidValue = "eab3b926fbb998b730e5a0f5bfe62a71" := rfl
+/-- source of `rscp_var_newEmptyMap` is unchanged -/
+theorem shape_rscp_var_newEmptyMap : Rscp.Gen.Shape.rscp_var_newEmptyMap = "d059d0ec1f24e287db3c677f0e5c6c39" := rfl
+/-- source of `rscp_var_newMap` is unchanged -/
+theorem shape_rscp_var_newMap : Rscp.Gen.Shape.rscp_var_newMap = "63ae8b8dc37c650c9a7757a308782f7d" := rfl
+/-- source of `rscp_var_validateMap` is unchanged -/
+theorem shape_rscp_var_validateMap : Rscp.Gen.Shape.rscp_var_validateMap = "de4e7a33108b1c417fc133040a368714" := rfl
 /-- leaf `isRequest`: source text and argument list are unchanged -/
 theorem leaf_isRequest_src : Rscp.Gen.Leaf.isRequest_src = "((t >> TypeFlagBit) & 1) == 0" := rfl
 theorem leaf_isRequest_args : Rscp.Gen.Leaf.isRequest_args = ["t"] := rfl
